@@ -202,13 +202,14 @@ class VerilogTransformer(Transformer):
         for sd in sig_decls.values():
             if sd.kind == 'output':
                 for name in sd.names:
+                    fork_name = name
                     if name not in c.forks:
                         if f'{name}[0]' in c.forks:  # actually a 1-bit bus?
-                            name = f'{name}[0]'
+                            fork_name = f'{name}[0]'
                         else:
                             log.warn(f'Output not driven: {name}')
                             continue
-                    Line(c, c.forks[name], c.cells[name])
+                    Line(c, c.forks[fork_name], c.cells[name])
         return c
 
     @staticmethod
